@@ -31,10 +31,14 @@ def run(res, only=None):
             st["generated"] = st["distinct"] = int(m.group(1))
     res.add_tlc(st)
     core.replay_bin(res, "tok", sim, cfgs, tag="sim")
+    # (3) code -> spec: random histories (constructors, writes, reads through every lane-valued path) over random bit patterns, recorded
+    #     from every vector type and validated by TLC against the same register actions (Trace_C17.tla extends Access.tla)
+    core.record_and_validate(res, "acc", cfgs, draws=3 if res.tier == "quick" else 60, module="Trace_C17", chunks=1, expect_kinds=("acc",))
     res.exhaustive = True
     res.rule = ("BFS: every (register, action) pair of the 3-token register machine for n=2,3,4 (complete), each replayed "
                 "on all 34 vector types + Quat/DQuat with the whole register projected after the step; plus TLC-simulated "
-                "histories of length 32.  Vec3A registers start from 6 hidden-lane contents.")
+                "histories of length 32.  Vec3A registers start from 6 hidden-lane contents.  Code -> spec: random histories of 36 (quick) / 720 "
+                "(thorough) calls per type over random bit patterns, each logged call one action of Access.tla with its arguments bound (Trace_C17.tla).")
     res.assumptions = ["data independence of access paths (values are only moved)",
                        "the implementation has no state beyond the register, so transition coverage is history coverage; "
                        "the length-32 simulated histories guard that assumption"]
